@@ -1405,6 +1405,7 @@ impl Database {
                         let storage_arc = file_manager.table_data_mut(schema_name, table_name)?;
                         let mut storage_inner = storage_arc.write();
 
+                        let mut new_table_root = root_page;
                         with_btree_storage!(
                             wal_enabled,
                             &mut *storage_inner,
@@ -1416,9 +1417,14 @@ impl Database {
                                     btree_mut.delete(target_key)?;
                                     btree_mut.insert(target_key, &record_data)?;
                                 }
+                                new_table_root = btree_mut.root_page();
                                 Ok::<_, eyre::Report>(())
                             }
                         );
+                        if new_table_root != root_page {
+                            let page = storage_inner.page_mut(0)?;
+                            TableFileHeader::from_bytes_mut(page)?.set_root_page(new_table_root);
+                        }
                         drop(storage_inner);
 
                         self.flush_wal_if_autocommit(
@@ -1927,6 +1933,7 @@ impl Database {
         let storage_arc = file_manager.table_data_mut(schema_name, table_name)?;
         let mut storage = storage_arc.write();
 
+        let mut new_table_root = root_page;
         with_btree_storage!(
             wal_enabled,
             &mut *storage,
@@ -1945,9 +1952,15 @@ impl Database {
                         btree_mut.insert(key, &record_data)?;
                     }
                 }
+                new_table_root = btree_mut.root_page();
                 Ok::<_, eyre::Report>(())
             }
         );
+        if new_table_root != root_page {
+            // a grown row was re-inserted and split the root
+            let page = storage.page_mut(0)?;
+            TableFileHeader::from_bytes_mut(page)?.set_root_page(new_table_root);
+        }
         drop(storage);
 
         let relevant_fk_refs: Vec<_> = child_table_schemas
